@@ -19,14 +19,14 @@ func pickScript(target Protocol, unaryKind bool, svcComp bool) (*respScript, int
 			s.declareLen = verifChoose("declareLen", 2) == 1
 		}
 	case 1, 2:
-		if verifTier() == 1 {
+		if verifTier() == 1 && pipeThoroughSlice == sliceDeepScript {
 			s.errCode = verifNondetUint32("code")
 			verifAssume(s.errCode >= 1 && s.errCode <= 20)
 		} else {
 			s.errCode = [3]uint32{1, 16, 17}[verifChoose("code", 3)]
 		}
 		s.errMsg = "Zz"
-		if verifTier() == 1 {
+		if verifTier() == 1 && pipeThoroughSlice == sliceDeepScript {
 			s.errMsg = [3]string{"m", "Zz", "~"}[verifChoose("errmsg", 3)]
 		}
 		if kind == 1 && enveloped {
@@ -69,7 +69,9 @@ func (b *bareBackend) ServeHTTP(w http.ResponseWriter, r *http.Request) {
 // hC03Pipe: whatever the backend does, the client gets a response that is valid in its own protocol
 // with exactly one terminal disposition; error code and message survive (C04).
 func hC03Pipe() {
+	pipeSliceCount = 4
 	cfg, ok := pickPipeCfg()
+	pipeSliceCount = 3
 	if !ok {
 		return
 	}
